@@ -1,9 +1,10 @@
 """C01: the parse->emit round trip preserves execution behaviour (with the GC variant: the behavioural half of C06)."""
+import re
 import json, os, shutil, subprocess, concurrent.futures as cf
 from .. import core
 
 PROOF = "Props/C01.v"
-RUN_FILES = ["Run/SemCoreRun.v", "Run/SemModRun.v"]
+RUN_FILES = ["Run/SemCoreRun.v", "Run/SemModRun.v", "Run/InstRun.v"]
 CORR_NAME = "input and output binaries executed side by side by node's WebAssembly engine (an interpreter/compiler that does not link walrus)"
 ASSUMPTIONS = [
     "Model/Sem.v is an abstract big-step semantics of structured operator forests, parametric in the semantics of the individual operators; the equivalence theorem assumes that an operator's semantics is invariant under the consistent renumbering of indices (the interface to the WebAssembly semantics) and that return/unreachable never fall through",
@@ -154,6 +155,89 @@ def module_correspondence(ctx, thorough, search):
     return dis, ov, cov
 
 
+def inst_correspondence(ctx, thorough, search):
+    """instantiation: generated modules with global initialisers, active / passive / declared element and data segments (some out of bounds), a start
+    function (sometimes trapping); node instantiates the input and walrus's output (half of them after the GC pass) and the Coq model of Model/Inst.v
+    instantiates the same module: verdict, globals, memory, table, and calls after instantiation"""
+    out = os.path.join(ctx.work, ("search" if search else "corr") + "_inst")
+    shutil.rmtree(out, ignore_errors=True)
+    n = 600 if thorough else 60
+    rc, o, dt = core.sh([core.vh(), "c01inst", out, str(ctx.seed + (79 if search else 0)), str(n)], timeout=1200)
+    if rc != 0:
+        return [{"error": "instantiation generator failed", "out": o[-600:]}], [], {}
+    idx = json.load(open(os.path.join(out, "index.json")))
+    r = subprocess.run(["node", os.path.join(core.VERIF, "js", "runinst.mjs"), out], capture_output=True, text=True, timeout=1800)
+    if r.returncode != 0 or not r.stdout.strip():
+        return [{"error": "node failed on the instantiation cases", "out": r.stderr[-600:]}], [], {}
+    by = {x["id"]: x for x in json.loads(r.stdout)["results"]}
+
+    def res(v):
+        if v["r"].startswith("ok:"):
+            body = v["r"][3:]
+            return "CROk [%s]" % "; ".join(t[1:] for t in body.split(",")) if body else "CROk []"
+        return "CRTrap" if v["r"].startswith("trap:") else None
+    lines, ids, ov, kinds, ncalls, skipped = [], [], [], {}, 0, 0
+    for c in idx["cases"]:
+        x = by.get(c["id"])
+        if x is None:
+            continue
+        exh = any("exhaustion" in (q["in"]["r"], q["out"]["r"]) for q in x["calls"]) or "RangeError" in (x["in"]["v"], x["out"]["v"])
+        if not x["same"] and not exh:
+            ov.append({"class": "behaviour-differs", "what": "module %s: instantiation of the input gives `%s`, of walrus's output `%s`; differing calls after instantiation: %s" % (
+                           c["id"], json.dumps(x["in"])[:300], json.dumps(x["out"])[:300], json.dumps([q for q in x["calls"] if not q["same"]])[:400]),
+                       "input": {"module_hex": open(os.path.join(out, c["id"] + ".in.wasm"), "rb").read().hex()},
+                       "replay_cmd": "instantiate the input and walrus's output (import env.gi = the i32 the case names): compare the verdict, exported globals, memory m, table t and the calls"})
+        o = x["in"]
+        if o["v"] == "ok":
+            kind = "ok"
+        elif o["v"] == "RuntimeError":
+            kind = "trap: " + re.sub(r"^WebAssembly.Instance\(\): ", "", o["msg"])[:40]
+        else:
+            kinds["skipped: " + o["v"]] = kinds.get("skipped: " + o["v"], 0) + 1
+            continue
+        kinds[kind] = kinds.get(kind, 0) + 1
+        gidx = {g["name"]: g["index"] for g in c["gnames"]}
+        if o["v"] == "ok":
+            gobs = "; ".join("(%d, %s)" % (gidx[nm], v[1:]) for nm, v in o["globals"].items())
+            tbl = "; ".join("None" if k == -1 else "Some %d" % k for k in o["table"])
+            calls = []
+            for q in x["calls"]:
+                call = c["calls"][q["k"]]
+                e = res(q["in"])
+                if e is None:
+                    skipped += 1
+                    continue
+                ncalls += 1
+                calls.append("(%s, [%s]%%Z, %s, %s, %s, %s, %s)" % (call["f"], "; ".join("(%s)" % a["v"] for a in call["args"]), e, q["in"]["g0"][1:], q["in"]["g1"][1:], q["in"]["memsum"], q["in"]["pages"]))
+            obs = "ic_ok := true; ic_gobs := [%s]; ic_memsum := %s; ic_pages := %s; ic_tbl := [%s]" % (gobs, o["memsum"], o["pages"], tbl)
+        else:
+            calls = []
+            obs = "ic_ok := false; ic_gobs := []; ic_memsum := 0; ic_pages := 0; ic_tbl := []"
+        lines.append("{| ic_tys := %s; ic_funcs := %s; ic_globals := %s; ic_mem := %s; ic_table := %s; ic_elems := %s; ic_datas := %s; ic_start := %s; %s; ic_g0 := %d; ic_g1 := %d; ic_calls := [%s] |}" % (
+            c["tys"], c["funcs"], c["globals"], c["mem"], c["table"], c["elems"], c["datas"], c["start"], obs, c["g0idx"], c["g1idx"], "; ".join(calls)))
+        ids.append(c["id"])
+    head = "From Coq Require Import List NArith ZArith String. Import ListNotations.\nFrom WV Require Import Gen.Ops Model.Common Model.IR Model.ParseSpec Model.Inst Run.SemCoreRun Run.InstRun.\nOpen Scope N_scope.\nDefinition cases : list instcase := [\n"
+    per = 12
+    for k in range(0, len(lines), per):
+        with open(os.path.join(out, "cases_inst_%d.v" % (k // per)), "w") as f:
+            f.write(head + ";\n".join("  " + l for l in lines[k:k + per]) + "\n].\nEval vm_compute in (List.map check_inst cases).\n")
+    results, errors = core.coq_eval(out, "cases_inst_*.v")
+    dis = [{"file": f, "coq_error": m[-400:]} for f, m in errors.items()]
+    names = {81: "instantiation verdict differs from V8", 82: "globals after instantiation differ from V8", 83: "memory after instantiation differs from V8", 84: "memory size differs from V8",
+             85: "table contents differ from V8", 86: "the model went wrong", 87: "call depth or fuel exhausted", 71: "result of a call after instantiation differs from V8", 72: "globals after a call differ",
+             73: "memory after a call differs", 74: "memory size after a call differs", 75: "the interpreter is stuck / went wrong in a call", 76: "call depth or fuel exhausted in a call"}
+    neval = 0
+    for f, codes in results.items():
+        neval += len(codes)
+        for i, cd in enumerate(codes):
+            if cd != 0:
+                dis.append({"code": cd, "meaning": names.get(cd, "?"), "file": os.path.basename(f), "case_index": i})
+    cov = {"modules": len(lines), "evaluated_in_coq": neval, "verdicts_in_v8": kinds, "calls_after_instantiation_compared_with_v8": ncalls, "calls_skipped_stack_exhaustion": skipped,
+           "generator": {k: v for k, v in idx.items() if k != "cases"},
+           "rule": "generated modules of 2-5 functions over the core operators, every function exported, a table of 4-8 slots, one memory (1 page, max 3), mutable i32 / i64 globals, an immutable one and an imported i32 global used by global.get initialisers and segment offsets, 0-3 active element segments (offsets in and slightly out of range, overlapping, null entries), passive and declared segments, 0-3 active data segments (offsets around 65536), a start function in a third of the modules (writing memory / globals, sometimes trapping); half of the modules also go through walrus's GC pass; V8's instantiation verdict, exported globals, memory checksum and size, the function in every table slot, and calls after instantiation vs. Model/Inst.v `instantiate` followed by run_mod; the input and walrus's output are compared with each other as well"}
+    return dis, ov, cov
+
+
 def correspondence(ctx, thorough, search, prop="C01"):
     out = os.path.join(ctx.work, ("search" if search else "corr") + ("_" + prop if prop != "C01" else ""))
     shutil.rmtree(out, ignore_errors=True)
@@ -197,4 +281,10 @@ def correspondence(ctx, thorough, search, prop="C01"):
         cov["modules_with_calls_vs_coq_interpreter"] = cov3
         cov["evaluations"] += cov3.get("calls_compared_with_v8", 0)
         cov["traces_validated_against_impl"] += cov3.get("evaluated_in_coq", 0)
+        dis4, ov4, cov4 = inst_correspondence(ctx, thorough, search)
+        dis += dis4
+        ov += ov4
+        cov["instantiation_vs_coq_model"] = cov4
+        cov["evaluations"] += cov4.get("modules", 0) + cov4.get("calls_after_instantiation_compared_with_v8", 0)
+        cov["traces_validated_against_impl"] += cov4.get("evaluated_in_coq", 0)
     return {"disagreements": dis, "oracle_violations": ov, "coverage": cov}
